@@ -2401,7 +2401,8 @@ func validateGatewayNames(gatewayNames []string, gatewaySemantics bool) (errs Va
 }
 
 func validateHTTPRouteDestinations(weights []*networking.HTTPRouteDestination, gatewaySemantics bool) (errs error) {
-	var totalWeight int32
+	// int64: the sum of int32 weights must neither wrap around (to 0 or below) nor exceed what Envoy accepts
+	var totalWeight int64
 	for _, weight := range weights {
 		if weight == nil {
 			errs = multierror.Append(errs, errors.New("weight may not be nil"))
@@ -2439,16 +2440,20 @@ func validateHTTPRouteDestinations(weights []*networking.HTTPRouteDestination, g
 			errs = appendErrors(errs, validateDestination(weight.Destination))
 		}
 		errs = appendErrors(errs, validateWeight(weight.Weight))
-		totalWeight += weight.Weight
+		totalWeight += int64(weight.Weight)
 	}
 	if len(weights) > 1 && totalWeight == 0 {
 		errs = appendErrors(errs, fmt.Errorf("total destination weight = 0"))
+	}
+	if totalWeight > math.MaxUint32 {
+		// Envoy: "The sum of weights across all entries in the clusters array ... must not exceed uint32_t maximal value"
+		errs = appendErrors(errs, fmt.Errorf("total destination weight %d exceeds %d", totalWeight, uint32(math.MaxUint32)))
 	}
 	return errs
 }
 
 func validateRouteDestinations(weights []*networking.RouteDestination, gatewaySemantics bool) (errs error) {
-	var totalWeight int32
+	var totalWeight int64
 	for _, weight := range weights {
 		if weight == nil {
 			errs = multierror.Append(errs, errors.New("weight may not be nil"))
@@ -2461,10 +2466,13 @@ func validateRouteDestinations(weights []*networking.RouteDestination, gatewaySe
 			errs = appendErrors(errs, validateDestination(weight.Destination))
 		}
 		errs = appendErrors(errs, validateWeight(weight.Weight))
-		totalWeight += weight.Weight
+		totalWeight += int64(weight.Weight)
 	}
 	if len(weights) > 1 && totalWeight == 0 {
 		errs = appendErrors(errs, fmt.Errorf("total destination weight = 0"))
+	}
+	if totalWeight > math.MaxUint32 {
+		errs = appendErrors(errs, fmt.Errorf("total destination weight %d exceeds %d", totalWeight, uint32(math.MaxUint32)))
 	}
 	return errs
 }
